@@ -39,6 +39,51 @@ theorem code_ihs_bw_mem (env : String → ℝ) (N t : ℕ) (hN : env "space.n_it
   refine ⟨_, ?_, ihsBw_mem _ _ N t hN0 htN h0 hb⟩
   unfold schedCode; rw [Gen.sched_ihs_bw_eq]; exact d_ihs_bw env N t hN ht
 
+/-- IHS `self.PAR = …` read at two iterations `t ≤ t'` of one task (same `PAR_min`, `PAR_max`, `n_iterations`):
+    the later value is not smaller, and the value at `t = 0` is `PAR_min` -/
+theorem code_ihs_PAR_monotone (env env' : String → ℝ) (N t t' : ℕ)
+    (hN : env "space.n_iterations" = (N : ℝ)) (hN' : env' "space.n_iterations" = (N : ℝ))
+    (ht : env "t" = (t : ℝ)) (ht' : env' "t" = (t' : ℝ))
+    (hmin : env' "self.PAR_min" = env "self.PAR_min") (hmax : env' "self.PAR_max" = env "self.PAR_max")
+    (hp : env "self.PAR_min" ≤ env "self.PAR_max") (htt : t ≤ t') :
+    ∃ v v', schedCode "ihs_PAR" env = some (.s v) ∧ schedCode "ihs_PAR" env' = some (.s v') ∧ v ≤ v' ∧
+      (t = 0 → v = env "self.PAR_min") := by
+  refine ⟨ihsPAR (env "self.PAR_min") (env "self.PAR_max") N t,
+    ihsPAR (env' "self.PAR_min") (env' "self.PAR_max") N t', ?_, ?_, ?_, ?_⟩
+  · unfold schedCode; rw [Gen.sched_ihs_PAR_eq]; exact d_ihs_PAR env N t hN ht
+  · unfold schedCode; rw [Gen.sched_ihs_PAR_eq]; exact d_ihs_PAR env' N t' hN' ht'
+  · rw [hmin, hmax]; exact ihsPAR_monotone _ _ N t t' hp htt
+  · intro h0; subst h0; exact ihsPAR_zero _ _ N
+
+/-- IHS `self.bw = …` read at two iterations `t ≤ t'` of one task: the later value is not larger, and the value at
+    `t = 0` is `bw_max` -/
+theorem code_ihs_bw_antitone (env env' : String → ℝ) (N t t' : ℕ)
+    (hN : env "space.n_iterations" = (N : ℝ)) (hN' : env' "space.n_iterations" = (N : ℝ))
+    (ht : env "t" = (t : ℝ)) (ht' : env' "t" = (t' : ℝ))
+    (hmin : env' "self.bw_min" = env "self.bw_min") (hmax : env' "self.bw_max" = env "self.bw_max")
+    (h0 : 0 < env "self.bw_min") (hb : env "self.bw_min" ≤ env "self.bw_max") (htt : t ≤ t') :
+    ∃ v v', schedCode "ihs_bw" env = some (.s v) ∧ schedCode "ihs_bw" env' = some (.s v') ∧ v' ≤ v ∧
+      (t = 0 → v = env "self.bw_max") := by
+  refine ⟨ihsBw (env "self.bw_min") (env "self.bw_max") N t,
+    ihsBw (env' "self.bw_min") (env' "self.bw_max") N t', ?_, ?_, ?_, ?_⟩
+  · unfold schedCode; rw [Gen.sched_ihs_bw_eq]; exact d_ihs_bw env N t hN ht
+  · unfold schedCode; rw [Gen.sched_ihs_bw_eq]; exact d_ihs_bw env' N t' hN' ht'
+  · rw [hmin, hmax]; exact ihsBw_antitone _ _ N t t' h0 hb htt
+  · intro h0; subst h0; exact ihsBw_zero _ _ N
+
+/-- AIWPSO `self.w = …` for two success counts `p ≤ p'` over the same swarm: more successes, no smaller weight -/
+theorem code_aiwpso_w_monotone (env env' : String → ℝ) (p p' n : ℕ)
+    (hp : env "p" = (p : ℝ)) (hp' : env' "p" = (p' : ℝ))
+    (hn : env "len(agents)" = (n : ℝ)) (hn' : env' "len(agents)" = (n : ℝ))
+    (hmin : env' "self.w_min" = env "self.w_min") (hmax : env' "self.w_max" = env "self.w_max")
+    (hw : env "self.w_min" ≤ env "self.w_max") (hpp : p ≤ p') :
+    ∃ w w', schedCode "aiwpso_w" env = some (.s w) ∧ schedCode "aiwpso_w" env' = some (.s w') ∧ w ≤ w' := by
+  refine ⟨aiwpsoW (env "self.w_min") (env "self.w_max") p n,
+    aiwpsoW (env' "self.w_min") (env' "self.w_max") p' n, ?_, ?_, ?_⟩
+  · unfold schedCode; rw [Gen.sched_aiwpso_w_eq]; exact d_aiwpso_w env p n hp hn
+  · unfold schedCode; rw [Gen.sched_aiwpso_w_eq]; exact d_aiwpso_w env' p' n hp' hn'
+  · rw [hmin, hmax]; exact aiwpsoW_monotone _ _ p p' n hw hpp
+
 /-- SA `self.T *= self.beta` neither increases nor becomes negative (decay ≤ 1) -/
 theorem code_sa_T_antitone_nonneg (env : String → ℝ) (hT : 0 ≤ env "self.T") (hb0 : 0 ≤ env "self.beta")
     (hb1 : env "self.beta" ≤ 1) :
